@@ -4,10 +4,10 @@
    is printed once per terminal state; bin/check replays it against the real library. *)
 EXTENDS TtxSearch, Json
 
-VARIABLE hist
-gvars == <<vars, hist>>
+VARIABLES hist, ipop       \* ipop: the population of the initial state (updates are part of the history)
+gvars == <<vars, hist, ipop>>
 
-GInit == Init /\ hist = <<>>
+GInit == Init /\ hist = <<>> /\ ipop = pop
 
 Rec(d) == [d |-> d, r |-> last'.r,
            pg |-> IF last'.r = "success" THEN last'.pg ELSE 0,
@@ -15,6 +15,7 @@ Rec(d) == [d |-> d, r |-> last'.r,
            occ |-> IF last'.r = "success" THEN last'.occ ELSE 0]
 
 GNext == /\ Next
+         /\ ipop' = ipop
          /\ hist' = IF ncalls' > ncalls THEN Append(hist, Rec(wdir')) 
                     ELSE IF pop' # pop
                          THEN LET k == CHOOSE k \in Key : pop'[k] # pop[k]
@@ -23,7 +24,7 @@ GNext == /\ Next
 
 GSpec == GInit /\ [][GNext]_gvars
 
-PopList == LET ks == SortAsc({k \in Key : TRUE}) IN [i \in 1..Len(ks) |-> <<ks[i][1], ks[i][2], pop[ks[i]]>>]
+PopList == LET ks == SortAsc({k \in Key : TRUE}) IN [i \in 1..Len(ks) |-> <<ks[i][1], ks[i][2], ipop[ks[i]]>>]
 \* the population is reported as of the initial state: updates are part of the history
 Dump == (pc = "idle" /\ ncalls = MaxCalls) =>
           PrintT(<<"TR", ToJson([arg |-> arg, calls |-> hist, pop0 |-> PopList])>>)
